@@ -13,14 +13,15 @@ from vfw.prog import INV_AROUND, Level, Prog, effective
 RESULT = object()
 
 
-def _levels(kind: str, a0: int, b0: int, s0: int, i0: int, d1: int, a1: int, b1: int, i1: int) -> Tuple[Level, ...]:
+def _levels(kind: str, a0: int, b0: int, s0: int, i0: int, d1: int, a1: int, b1: int, i1: int, fg: bool) -> Tuple[Level, ...]:
     inv0 = ("CALL",) * i0 if kind != "func" else ()
-    l0 = Level(True, pre=a0, post=b0, snaps=s0 if b0 else 0, inv=inv0)
-    if kind == "func" or d1 == 0:
+    last0 = kind == "func" or d1 == 0
+    l0 = Level(True, pre=a0, post=b0, snaps=s0 if b0 else 0, inv=inv0, foreign=fg and last0)
+    if last0:
         return (l0,)
     if d1 == 1:
         return (l0, Level(False, inv=("CALL",) * i1))
-    return (l0, Level(True, pre=a1, post=b1, inv=("CALL",) * i1))
+    return (l0, Level(True, pre=a1, post=b1, inv=("CALL",) * i1, foreign=fg))
 
 
 def _member(built: Any) -> Any:
@@ -34,11 +35,12 @@ def _member(built: Any) -> Any:
     return {"prop_get": prop.fget, "prop_set": prop.fset, "prop_del": prop.fdel}[kind]
 
 
-def run_intro(kind: str, a0: int, b0: int, s0: int, i0: int, d1: int, a1: int, b1: int, i1: int,
+def run_intro(kind: str, a0: int, b0: int, s0: int, i0: int, d1: int, a1: int, b1: int, i1: int, fg: bool,
               p0: bool, p1: bool, p2: bool, p3: bool, q0: bool, q1: bool, q2: bool, v0: bool, v1: bool,
               w0: bool, w1: bool) -> Tuple[bool, bool]:
     a0, b0, s0, i0, d1, a1, b1, i1 = conc(a0, 0, 2), conc(b0, 0, 2), conc(s0, 0, 1), conc(i0, 0, 1), conc(d1, 0, 2), conc(a1, 0, 2), conc(b1, 0, 1), conc(i1, 0, 1)
-    prog = Prog(kind=kind, is_async=False, levels=_levels(kind, a0, b0, s0, i0, d1, a1, b1, i1))
+    fg = True if fg else False  # a foreign functools.wraps decorator on top of the most derived contract stack
+    prog = Prog(kind=kind, is_async=False, levels=_levels(kind, a0, b0, s0, i0, d1, a1, b1, i1, fg))
     eff = effective(prog)
     if eff.creation_error_at is not None:
         return True, False
@@ -79,13 +81,10 @@ def run_intro(kind: str, a0: int, b0: int, s0: int, i0: int, d1: int, a1: int, b
             structure_ok = not (eff.groups or eff.posts)
             groups_l, posts_l, snaps_l = [], [], []  # type: ignore
         else:
-            # exactly one checker; outer wrappers created with functools.update_wrapper (invariant checks,
-            # foreign decorators) may only alias the checker's very same list objects
-            structure_ok = carriers[-1] is checker and all(
-                getattr(c, "__preconditions__", None) is checker.__preconditions__
-                and getattr(c, "__postconditions__", None) is checker.__postconditions__
-                and getattr(c, "__postcondition_snapshots__", None) is checker.__postcondition_snapshots__
-                for c in carriers)
+            # the one checker is the innermost carrier of the lists; outer wrappers created with functools.update_wrapper
+            # (invariant checks, foreign decorators) merely carry copies of the attribute references, possibly stale
+            # ones - they are not part of the documented interface
+            structure_ok = carriers[-1] is checker
             groups_l = checker.__preconditions__
             posts_l = checker.__postconditions__
             snaps_l = checker.__postcondition_snapshots__
@@ -155,7 +154,7 @@ def run_intro(kind: str, a0: int, b0: int, s0: int, i0: int, d1: int, a1: int, b
     if by_hand != real:
         ok = False
     witness = real != "ret"
-    note((kind, a0, b0, s0, i0, d1, a1, b1, i1, real, by_hand), witness)
+    note((kind, a0, b0, s0, i0, d1, a1, b1, i1, fg, real, by_hand), witness)
     return ok, witness
 
 
@@ -194,7 +193,7 @@ def run_hook(n: int, inv_mask: int, via: int) -> Tuple[bool, bool]:
     return ok, True
 
 
-ALL = ["a0", "b0", "s0", "i0", "d1", "a1", "b1", "i1", "p0", "p1", "p2", "p3", "q0", "q1", "q2", "v0", "v1", "w0", "w1"]
+ALL = ["a0", "b0", "s0", "i0", "d1", "a1", "b1", "i1", "fg", "p0", "p1", "p2", "p3", "q0", "q1", "q2", "v0", "v1", "w0", "w1"]
 
 
 def harnesses(tier: str) -> List[H]:
@@ -213,7 +212,7 @@ def harnesses(tier: str) -> List[H]:
                 params += [I("i1", 0, 1)]
             if d1 == 2:
                 params += [I("a1", 0, 2 if tier == "thorough" else 1), I("b1", 0, 1)]
-            params += [B("p0"), B("p1"), B("q0"), B("q1")]
+            params += [B("fg"), B("p0"), B("p1"), B("q0"), B("q1")]
             if d1 == 2:
                 params += [B("p2"), B("q2")] + ([B("p3")] if tier == "thorough" else [])
             if has_inv:
